@@ -22,6 +22,9 @@ def make_forest(root):
     w(root + "/foo_bar.py", BODY)
     w(root + "/zed/__init__.py", "import foo_bar\n" + BODY)
     w(root + "/fo.py", BODY)
+    # a module that does not compile, and one that tries to import it (swallowing the SyntaxError) before importing `fo`
+    w(root + "/brk.py", "def f(:\n    return 1\n")
+    w(root + "/imp2.py", "try:\n    import brk\nexcept SyntaxError:\n    pass\nimport fo\n" + BODY)
     w(root + "/spyreg.py", "LOG = []\n")
     for k in ("A", "B", "C"):
         w(root + "/spy%s.py" % k, "import spyreg\n\ndef check(fn, *a, **k):\n    spyreg.LOG.append((getattr(fn, '__module__', None), getattr(fn, '__qualname__', None), %r))\n    return fn\n" % k)
@@ -89,7 +92,7 @@ def reference(ops):
                         tag = "hooked:%s" % chk; break
                 loaded[m] = tag
                 # nested imports performed by the module bodies
-                for dep in {"foo.bar.qux": ["foo.a"], "zed": ["foo_bar"]}.get(m, []):
+                for dep in {"foo.bar.qux": ["foo.a"], "zed": ["foo_bar"], "imp2": ["fo"]}.get(m, []):
                     dparts = dep.split(".")
                     for j in range(1, len(dparts) + 1):
                         d = ".".join(dparts[:j])
@@ -279,7 +282,10 @@ def bytecode_pairs(R, env):
     n = 150 if R.thorough else 8
     pairs = [([["install", ["foo.bar"], "A", 0, True], ["import", "foo.bar.qux"]], [["install", ["foo.a"], "A", 0, True], ["import", "foo.a"], ["import", "foo.bar.qux"]]),
              ([["install", ["zed"], "B", 0, True], ["import", "zed"]], [["install", ["foo_bar"], "B", 0, True], ["import", "foo_bar"], ["import", "zed"]]),
-             ([["install", ["foo_bar"], "B", 0, True], ["import", "foo_bar"]], [["install", ["zed"], "B", 0, True], ["import", "zed"]])]
+             ([["install", ["foo_bar"], "B", 0, True], ["import", "foo_bar"]], [["install", ["zed"], "B", 0, True], ["import", "zed"]]),
+             # a hooked module that fails to compile, then the first import of an un-hooked module in the same run; the next run hooks that one
+             ([["install", ["brk"], "A", 0, True], ["import", "imp2"]], [["install", ["fo"], "A", 0, True], ["import", "fo"]]),
+             ([["install", ["brk", "imp2"], "C", 0, True], ["import", "imp2"], ["import", "foo_bar"]], [["install", ["foo_bar", "fo"], "C", 0, True], ["import", "fo"], ["import", "foo_bar"]])]
     for _ in range(n):
         pairs.append((gen_history(R.rng), gen_history(R.rng)))
     def runpair(pr):
